@@ -1,3 +1,4 @@
+import MorfuseModel.Gen.DispatchGen
 /-!
 # Model of the class / event registry and of command dispatch  (property C16)
 
@@ -119,10 +120,14 @@ structure ES where
 
 def ES.empty : ES := ⟨0, .empty, [], .empty, .empty, .empty, .empty⟩
 
-structure State where
+/-- what the static / run-time registrations have produced: the `EventDef` objects and the class list -/
+structure Reg where
   evs : List EvObj           -- every constructed `EventDef`, id = position + 1
   defCount : Nat             -- `EventDef::defCount`
   clss : List ClsObj         -- `ClassDef::classlist` (`Add` appends), id = position + 1
+
+structure State where
+  reg : Reg
   started : Bool             -- `bEventSystemStarted`
   es : ES
   tables : Tables
@@ -132,13 +137,13 @@ structure State where
   built : Bool               -- ghost: the tables were built and nothing was registered since
 
 def init : State :=
-  { evs := [], defCount := 0, clss := [], started := false, es := .empty, tables := [],
+  { reg := ⟨[], 0, []⟩, started := false, es := .empty, tables := [],
     numClassesBuilt := 0, fmode := 0, flist := [], built := false }
 
 /-- the event object with id `i` -/
-def evAt (s : State) (i : Nat) : Option EvObj := if i = 0 then none else s.evs[i - 1]?
+def evAt (r : Reg) (i : Nat) : Option EvObj := if i = 0 then none else r.evs[i - 1]?
 /-- the class with id `c` -/
-def clsAt (s : State) (c : Nat) : Option ClsObj := if c = 0 then none else s.clss[c - 1]?
+def clsAt (r : Reg) (c : Nat) : Option ClsObj := if c = 0 then none else r.clss[c - 1]?
 
 /-- pairs (id, object) in construction order -/
 def enumFrom1 {α : Type} : Nat → List α → List (Nat × α)
@@ -146,24 +151,23 @@ def enumFrom1 {α : Type} : Nat → List α → List (Nat × α)
   | i, a :: t => (i, a) :: enumFrom1 (i + 1) t
 
 /-- `EventDef::head` → `next` → …: `AddFirst` puts the most recent registrant at the head -/
-def linkedList (s : State) : List (Nat × EvObj) :=
-  ((enumFrom1 1 s.evs).filter (fun p => p.2.linked)).reverse
+def linkedList (r : Reg) : List (Nat × EvObj) :=
+  ((enumFrom1 1 r.evs).filter (fun p => p.2.linked)).reverse
 
 /-- `EventDef::GetNewAttributes` + the constructor around it -/
-def newEvent (s : State) (name : Name) (kind : Kind) (ns : Nat) : State :=
-  match (linkedList s).find? (fun p => icmpEq p.2.name name && p.2.kind == kind) with
+def newEvent (r : Reg) (name : Name) (kind : Kind) (ns : Nat) : Reg :=
+  match (linkedList r).find? (fun p => icmpEq p.2.name name && p.2.kind == kind) with
   | some p =>
     -- `next = prev = nullptr; return eAttr;`  (the object is not linked, it shares the attributes)
-    { s with evs := s.evs ++ [{ name := p.2.name, kind := p.2.kind, num := p.2.num, ns := ns, linked := false }],
-             built := false }
+    { r with evs := r.evs ++ [{ name := p.2.name, kind := p.2.kind, num := p.2.num, ns := ns, linked := false }] }
   | none =>
     -- `head.AddFirst(this); return EventDefAttributes(command, type, ++defCount);`
-    { s with evs := s.evs ++ [{ name := name, kind := kind, num := s.defCount + 1, ns := ns, linked := true }],
-             defCount := s.defCount + 1, built := false }
+    { r with evs := r.evs ++ [{ name := name, kind := kind, num := r.defCount + 1, ns := ns, linked := true }],
+             defCount := r.defCount + 1 }
 
 /-- `ClassDef::ClassDef`: `responseLookup = nullptr; classlist.Add(this)` -/
-def newClass (s : State) (super ns : Nat) (decls : List Decl) : State :=
-  { s with clss := s.clss ++ [{ super := super, ns := ns, decls := decls }], built := false }
+def newClass (r : Reg) (super ns : Nat) (decls : List Decl) : Reg :=
+  { r with clss := r.clss ++ [{ super := super, ns := ns, decls := decls }] }
 
 /-! ## `EventSystem::InitEvents` -/
 
@@ -178,7 +182,7 @@ def countUnique : List (Nat × EvObj) → Nat × Nat
     | none => (r.1 + 1, r.2 + 1)
     | some e2 => (if e1.2.num = e2.2.num then r.1 else r.1 + 1, r.2)
 
-/-- position + 1 of the first key equal to `n` under `EventNameCompare`, 0 when absent -/
+/-- position + `i` of the first key equal to `n` under `EventNameCompare`, 0 when absent -/
 def findKeyIndexFrom : Nat → List Name → Name → Nat
   | _, [], _ => 0
   | i, k :: t, n => if icmpEq k n then i else findKeyIndexFrom (i + 1) t n
@@ -191,87 +195,105 @@ def addKeyIndex (names : List Name) (n : Name) : List Name × Nat :=
   if findKeyIndex names n ≠ 0 then (names, findKeyIndex names n)
   else (names ++ [n], names.length + 1)
 
+/-- `commandList[idx].<kind>Num = num` -/
+def ES.setInfo (es : ES) (k : Kind) (idx num : Nat) : ES :=
+  match k with
+  | .normal => { es with cN := es.cN.set idx num }
+  | .ret => { es with cR := es.cR.set idx num }
+  | .getter => { es with cG := es.cG.set idx num }
+  | .setter => { es with cS := es.cS.set idx num }
+  | .none => es
+
+/-- `commandList[idx].<kind>Num` (`evType_e::None` has no field) -/
+def ES.info (es : ES) (k : Kind) (idx : Nat) : Nat :=
+  match k with
+  | .normal => es.cN.get idx
+  | .ret => es.cR.get idx
+  | .getter => es.cG.get idx
+  | .setter => es.cS.get idx
+  | .none => 0
+
 /-- one iteration of the loop in `EventSystem::LoadEvents` -/
 def loadOne (es : ES) (p : Nat × EvObj) : ES :=
-  let e := p.2
-  let r := addKeyIndex es.names e.name
-  -- `eventDefList[eventNum - 1] = e;`
-  let es1 := { es with defList := es.defList.set e.num p.1, names := r.1 }
-  match e.kind with
-  | .normal => { es1 with cN := es1.cN.set r.2 e.num }
-  | .ret => { es1 with cR := es1.cR.set r.2 e.num }
-  | .getter => { es1 with cG := es1.cG.set r.2 e.num }
-  | .setter => { es1 with cS := es1.cS.set r.2 e.num }
-  | .none => es1
+  let r := addKeyIndex es.names p.2.name
+  -- `eventDefList[eventNum - 1] = e;` then the `switch` on the type
+  ({ es with defList := es.defList.set p.2.num p.1, names := r.1 } : ES).setInfo p.2.kind r.2 p.2.num
 
 /-- `EventSystem::LoadEvents` -/
 def loadEvents (es : ES) (l : List (Nat × EvObj)) : ES := l.foldl loadOne es
 
 /-- `r->event->GetEventNum()` -/
-def evNum (s : State) (ev : Nat) : Nat :=
-  match evAt s ev with
+def evNum (r : Reg) (ev : Nat) : Nat :=
+  match evAt r ev with
   | some e => e.num
   | none => 0
 
 /-- the loop over `responses` at the end of `ClassDef::BuildResponseList`; `i` is the index of the
-    entry `r` points at -/
-def patch (s : State) (c : Nat) : List Decl → Nat → Row → Row
-  | [], _, r => r
-  | d :: ds, i, r =>
+    entry the C++ pointer `r` points at -/
+def patch (r : Reg) (c : Nat) : List Decl → Nat → Row → Row
+  | [], _, row => row
+  | d :: ds, i, row =>
     -- `responseLookup[ev] = r->response ? r : nullptr`
-    patch s c ds (i + 1) (if d.has then r.set (evNum s d.ev) c i else r.set (evNum s d.ev) 0 0)
+    patch r c ds (i + 1) (if d.has then row.set (evNum r d.ev) c i else row.set (evNum r d.ev) 0 0)
 
 /-- `ClassDef::BuildResponseList`.  The C++ recursion into `super` is unbounded; the model gives it
     fuel (the number of classes + 1 is enough when the parent chain is acyclic, which `step`
     checks before it lets `InitEvents` run). -/
-def buildOne (s : State) : Nat → Tables → Nat → Tables
+def buildOne (r : Reg) : Nat → Tables → Nat → Tables
   | 0, T, _ => T
   | fuel + 1, T, c =>
     match tget T c with
     | some _ => T                       -- `if (responseLookup) return;`
     | none =>
-      match clsAt s c with
+      match clsAt r c with
       | none => T
       | some cd =>
         if cd.super ≠ 0 then
           -- `super->BuildResponseList(allocator); std::copy(super->responseLookup …)`
-          let T1 := buildOne s fuel T cd.super
+          let T1 := buildOne r fuel T cd.super
           let base := match tget T1 cd.super with
-            | some r => r
+            | some row => row
             | none => Row.zero
-          (c, patch s c cd.decls 0 base) :: T1
+          (c, patch r c cd.decls 0 base) :: T1
         else
           -- `std::fill(responseLookup, responseLookup + num, nullptr)`
-          (c, patch s c cd.decls 0 Row.zero) :: T
+          (c, patch r c cd.decls 0 Row.zero) :: T
 
 /-- the loop of `ClassSystem::BuildEventResponses` over class ids `c, c+1, …` -/
-def buildAll (s : State) (fuel : Nat) : Nat → Nat → Tables → Tables
+def buildAll (r : Reg) (fuel : Nat) : Nat → Nat → Tables → Tables
   | 0, _, T => T
-  | n + 1, c, T => buildAll s fuel n (c + 1) (buildOne s fuel T c)
+  | n + 1, c, T => buildAll r fuel n (c + 1) (buildOne r fuel T c)
 
-/-- `EventSystem::InitEvents` (+ `UnloadEvents` when rebuilding) -/
+/-- `LoadEvents` into the freshly pre-allocated arrays (`numEvents = numUniqueEvents`) -/
+def buildES (r : Reg) : ES :=
+  loadEvents { ES.empty with numEvents := (countUnique (linkedList r)).1 } (linkedList r)
+
+/-- `BuildEventResponses` from cleared tables -/
+def buildTables (r : Reg) (T0 : Tables) : Tables :=
+  buildAll r (r.clss.length + 1) r.clss.length 1 T0
+
+/-- `EventSystem::InitEvents` (+ `UnloadEvents` when rebuilding, which only frees) -/
 def initEvents (s : State) : State :=
-  let cnt := countUnique (linkedList s)
-  -- `PreallocateMemory`: fresh arrays, `numEvents = numUniqueEvents`
-  let es0 : ES := { ES.empty with numEvents := cnt.1 }
-  let es1 := loadEvents es0 (linkedList s)
-  -- `BuildEventResponses`: `if (numClassesBuilt) ClearEventResponses(allocator);`
-  let T0 : Tables := if s.numClassesBuilt ≠ 0 then [] else s.tables
-  let T1 := buildAll s (s.clss.length + 1) s.clss.length 1 T0
-  { s with started := true, es := es1, tables := T1, numClassesBuilt := s.clss.length, built := true }
+  { s with
+    started := true
+    es := buildES s.reg
+    -- `BuildEventResponses`: `if (numClassesBuilt) ClearEventResponses(allocator);`
+    tables := buildTables s.reg (if s.numClassesBuilt ≠ 0 then [] else s.tables)
+    numClassesBuilt := s.reg.clss.length
+    built := true }
 
 /-- does the parent chain of class `c` end at "no parent" within `fuel` steps, through registered
     classes only?  (True for every C++ class hierarchy.) -/
-def reaches (s : State) : Nat → Nat → Bool
+def reaches (r : Reg) : Nat → Nat → Bool
   | _, 0 => true
   | 0, _ + 1 => false
   | fuel + 1, c + 1 =>
-    match clsAt s (c + 1) with
+    match clsAt r (c + 1) with
     | none => false
-    | some cd => reaches s fuel cd.super
+    | some cd => reaches r fuel cd.super
 
-def chainsOk (s : State) : Bool :=
-  (List.range s.clss.length).all fun i => reaches s s.clss.length (i + 1)
+def chainsOk (r : Reg) : Bool :=
+  (List.range r.clss.length).all fun i => reaches r r.clss.length (i + 1)
 
 /-! ## operations -/
 
@@ -285,12 +307,12 @@ inductive Op
 /-- One host operation; `none` when it is not a legal C++ program fragment (a response that points
     at no event object, a class that is its own parent, building over a cyclic hierarchy). -/
 def step (s : State) : Op → Option State
-  | .newEvent name kind ns => some (newEvent s name kind ns)
+  | .newEvent name kind ns => some { s with reg := newEvent s.reg name kind ns, built := false }
   | .newClass super ns decls =>
-    if super ≠ s.clss.length + 1 ∧ decls.all (fun d => d.ev ≠ 0 ∧ d.ev ≤ s.evs.length) then
-      some (newClass s super ns decls)
+    if super ≠ s.reg.clss.length + 1 ∧ decls.all (fun d => d.ev ≠ 0 ∧ d.ev ≤ s.reg.evs.length) then
+      some { s with reg := newClass s.reg super ns decls, built := false }
     else none
-  | .initEvents => if chainsOk s then some (initEvents s) else none
+  | .initEvents => if chainsOk s.reg then some (initEvents s) else none
   | .setFilter mode l => if mode ≤ 2 then some { s with fmode := mode, flist := l } else none
 
 def run : State → List Op → Option State
@@ -311,18 +333,15 @@ def getResponse (s : State) (c n : Nat) : Option (Nat × Nat) :=
 def constName (s : State) (name : Name) : Nat := findKeyIndex s.es.names name
 
 /-- `FindEventInfoChecked(idx).<kind>Num` -/
-def infoNum (s : State) (idx : Nat) : Kind → Nat
-  | .normal => s.es.cN.get idx
-  | .ret => s.es.cR.get idx
-  | .getter => s.es.cG.get idx
-  | .setter => s.es.cS.get idx
-  | .none => 0
+def infoNum (s : State) (idx : Nat) (k : Kind) : Nat := s.es.info k idx
 
 /-- `EventSystem::Find{Normal,Return,Getter,Setter}EventNum(const rawchar_t*)` -/
 def findNum (s : State) (name : Name) (k : Kind) : Nat := infoNum s (constName s name) k
 
-/-- `EventSystem::FindEventInfo(eventName_t s)`: `s > 0 && s < eventDefName.size()` -/
-def findEventInfoOk (s : State) (idx : Nat) : Bool := 0 < idx ∧ idx < s.es.names.length
+/-- `EventSystem::FindEventInfo(eventName_t s)`: `s > 0 && s < eventDefName.size()`; the comparison
+    operator is read from the source on every run (`Gen.findEventInfoInclusive`: `<=` instead of `<`) -/
+def findEventInfoOk (s : State) (idx : Nat) : Bool :=
+  0 < idx ∧ (if Gen.findEventInfoInclusive then idx ≤ s.es.names.length else idx < s.es.names.length)
 
 /-- `EventSystem::Find*EventNum(eventName_t)` -/
 def findNumByIndex (s : State) (idx : Nat) (k : Kind) : Nat :=
@@ -330,7 +349,7 @@ def findNumByIndex (s : State) (idx : Nat) (k : Kind) : Nat :=
 
 /-- `EventSystem::GetEventDef`: `eventNum <= numEvents ? eventDefList[eventNum - 1] : nullptr` -/
 def getEventDef (s : State) (num : Nat) : Option EvObj :=
-  if num ≤ s.es.numEvents then evAt s (s.es.defList.get num) else none
+  if num ≤ s.es.numEvents then evAt s.reg (s.es.defList.get num) else none
 
 /-- `NamespaceManager::IsNamespaceAllowed` -/
 def nsAllowed (s : State) (ns : Nat) : Bool :=
